@@ -27,6 +27,8 @@ REAL_VS_STUB = {
 
 REAL_DIR = None
 _worker = {}
+ENUM_COUNTS = ["interrogate_number_of_manifests", "interrogate_number_of_globals", "interrogate_number_of_global_functions",
+               "interrogate_number_of_functions", "interrogate_number_of_global_types", "interrogate_number_of_types"]
 
 
 def setup(ctx):
@@ -202,6 +204,8 @@ def gen_c12(ctx):
                   [{"kind": "read", "k": k} for k in (1, 2, 3)] + [{"kind": "chunk", "n": c} for c in (1, 13, 512)]):
             add(u, {"0": f}, [{"op": "reg_db", "lib": 0}, {"op": "verify", "sweep": False, "lookups": f["kind"] == "chunk"}])
         add(u, {"0": {"kind": "ident", "delta": rng.below(1000)}}, [{"op": "reg_mod", "lib": 0, "range": True, "ident": "match"}, {"op": "verify"}])
+        # the same mismatch for a module definition without a compiled-in index range (the database numbers it itself)
+        add(u, {"0": {"kind": "ident", "delta": rng.below(1000)}}, [{"op": "reg_mod", "lib": 0, "range": False, "ident": "match", "uniq": rng.choice([None, 2])}, {"op": "verify"}])
         add(u, {"0": {"kind": "stale", "delta": rng.choice([1, 2, -1])}}, [{"op": "reg_mod", "lib": 0, "range": True, "ident": "match"}, {"op": "verify"}])
     # mixed format versions in one process: an old file after a current one and vice versa, with and without a fault in between
     for n in range(24 if not thorough else 240):
@@ -280,6 +284,10 @@ def gen_c13(ctx, focus="C13"):
             else:                   # two batches
                 cut = rng.range(1, k) if k > 1 else 1
                 ops += _regs(rng, order[:cut], style) + [{"op": "verify", "sweep": False}] + _regs(rng, order[cut:], style)
+            if focus == "C20" and rng.chance(1, 2):
+                # a count function as the very first query after the last registration
+                last_reg = max(i for i, o in enumerate(ops) if o["op"] in ("reg_db", "reg_mod"))
+                ops.insert(last_reg + 1, {"op": "count_first", "fn": rng.choice(sorted(ENUM_COUNTS))})
             if focus == "C20":
                 ops.append({"op": "uniq", "seed": rng.below(1 << 30), "even_empty": True})
             ops.append({"op": "verify", "sweep": focus == "C20" or rng.chance(1, 5), "lookups": True})
